@@ -24,12 +24,12 @@ def run_queue(lines, profile="debug"):
     return recs
 
 
-def gen_case(rng, n, fresh_only):
-    ids_all = ["u%d" % i for i in range(1, 7)] + ["l%d" % i for i in range(1, 3)]
+def gen_case(rng, n, fresh_only, ids_all=None):
+    ids_all = ids_all or (["u%d" % i for i in range(1, 7)] + ["l%d" % i for i in range(1, 3)])
     ops, busy, queued = [], set(), []
     ts = 10
     if rng.random() < 0.25:
-        k = rng.randint(0, 4)
+        k = rng.randint(0, min(4, len(ids_all)))
         sel = rng.sample(ids_all, k)
         os_ = []
         for s in sel:
@@ -89,6 +89,11 @@ def run(tier, seed, replay=None):
         n = 1500 if tier == "quick" else 40000
         cases = [["QPUSH S:u1:100:S:1:GTC:5", "QPUSH S:u2:100:S:2:GTC:5", "QREMOVE u1", "QPUSH S:u1:100:S:3:GTC:7", "QPOP", "QPOP"]]
         cases += [gen_case(rng, rng.randint(4, 30), fresh_only=(i % 2 == 0)) for i in range(n)]
+        # id recycling: two or three ids pushed, removed, popped and pushed again many times (per-id state left behind
+        # by an earlier remove / pop / re-push)
+        for i in range(400 if tier == "quick" else 10000):
+            pool = rng.choice([["u1", "u2"], ["u1", "l1"], ["u1", "u2", "l3"], ["u1"]])
+            cases.append(gen_case(rng, rng.randint(8, 40), fresh_only=False, ids_all=pool))
         # bulk sequences: long queues, many removals by id before the pops (thresholds inside the queue code)
         for i in range(40 if tier == "quick" else 1500):
             n_ids = rng.randint(30, 160)
